@@ -12,6 +12,7 @@ import numpy as np
 
 from .. import games
 from .. import prelude
+from .. import simthreads
 from ..core import Sim
 
 LEVEL = "exploration"
@@ -22,12 +23,15 @@ RULE = ("Each run holds 1..6 aliased handles (original, copy(), -g, copies of ne
         "Non-trivial = at least one comparison after a mutation; distinct = distinct event-log digests.")
 STATE_MEASURE = "distinct (n, known bitmask of the operated handle, operation kind) triples checked"
 REAL_VS_STUB = {"real": ["incomplete_cooperative.game.IncompleteCooperativeGame", "coalitions"], "stub": [],
-                "seams": ["scheduler interleaving operations across aliased handles"]}
-ASSUMPTIONS = ["no fault kind applies to this property; simulation contributes the interleaving across aliased "
-               "handles and minimised replayable histories",
+                "seams": ["scheduler interleaving operations across aliased handles",
+                          "line-granular thread interleaver (sim/simthreads.py): bulk operations, copies and negations of two "
+                          "different handles overlapped in two caller threads"]}
+ASSUMPTIONS = ["the only fault kinds that apply are a call failing half-way on an unusable value and pre-emption of a caller "
+               "thread between package lines while another thread operates on a DIFFERENT handle (copies are independent "
+               "objects); two threads on the same object are outside the property",
                "bounds of an unknown coalition are only compared after they were written through a bound setter "
                "(their value after unset / reset is not specified by the property)"]
-PROBES = ["call_with_unusable_value", "bulk_setter_fed_live_view_of_another_handle", "bulk_bounds_overlapping_known", "failed_precondition", "op_on_copy", "op_on_negation", "reset_after_bounds",
+PROBES = ["bulk_ops_on_two_handles_overlapped_in_threads", "call_with_unusable_value", "bulk_setter_fed_live_view_of_another_handle", "bulk_bounds_overlapping_known", "failed_precondition", "op_on_copy", "op_on_negation", "reset_after_bounds",
           "handles_3plus"]
 TIERS = {
     "quick": {"runs": 80000, "wall": 40, "batch": 48, "shrink_s": 40},
@@ -169,6 +173,136 @@ def check_handle(sim: Sim, h: Handle, clause_prefix: str = "C17") -> None:
     sim.checked()
 
 
+def plan_threaded(sim: Sim, h: Handle, N: int):
+    """One bulk operation on `h`, drawn completely before the threads start: (name, thunk, after(result, new_handles))."""
+    kind = sim.pick(["bulk_set", "set_all", "bulk_reset", "lower_all", "upper_all", "lower_sub", "upper_sub", "copy", "neg", "read_all"], "thr-op")
+    before = table(h.g)
+    if kind == "bulk_set":
+        ids = sim.subset(list(range(N)), "thr-ids", 1, 2) or [N - 1]
+        vals = [value(sim) for _ in ids]
+        arg, coals = np.array(vals, dtype=np.float64), games.coalitions(ids)
+
+        def after(_r, _new):
+            for i, v in zip(ids, vals):
+                h.known[i] = v
+        return kind, (lambda: h.g.set_values(arg, coals)), after
+    if kind == "set_all":
+        vals = [value(sim) for _ in range(N)]
+        arg = np.array(vals, dtype=np.float64)
+
+        def after(_r, _new):
+            h.known = {i: v for i, v in enumerate(vals)}
+        return kind, (lambda: h.g.set_values(arg)), after
+    if kind == "bulk_reset":
+        ids = sim.subset(list(range(N)), "thr-ids", 1, 3) or [0]
+        vals = [value(sim) for _ in ids]
+        coals = games.coalitions(ids)
+
+        def after(_r, _new):
+            h.known = {i: v for i, v in zip(ids, vals)}
+            h.lo, h.up = {}, {}
+            if 0 not in h.known and h.g.is_value_known(games.coalition(0)):
+                h.known[0] = 0.0
+        return kind, (lambda: h.g.set_known_values(list(vals), coals)), after
+    if kind in ("lower_all", "upper_all"):
+        vals = [value(sim) for _ in range(N)]
+        arg = np.array(vals, dtype=np.float64)
+        setter = h.g.set_lower_bounds if kind == "lower_all" else h.g.set_upper_bounds
+
+        def after(_r, _new):
+            model = h.lo if kind == "lower_all" else h.up
+            for i, v in enumerate(vals):
+                if i not in h.known:
+                    model[i] = v
+        return kind, (lambda: setter(arg)), after
+    if kind in ("lower_sub", "upper_sub"):
+        ids = sim.subset(list(range(N)), "thr-ids", 1, 2) or [N - 1]
+        vals = [value(sim) for _ in ids]
+        arg, coals = np.array(vals, dtype=np.float64), games.coalitions(ids)
+        setter = h.g.set_lower_bounds if kind == "lower_sub" else h.g.set_upper_bounds
+
+        def after(_r, _new):
+            model = h.lo if kind == "lower_sub" else h.up
+            for i, v in zip(ids, vals):
+                if i not in h.known:
+                    model[i] = v
+            # coalitions outside the subset keep whatever the model said (a subset call writes nothing else)
+        return kind, (lambda: setter(arg, coals)), after
+    if kind == "copy":
+        def after(r, new):
+            if table(r) != before or table(h.g) != before:
+                sim.fail("C17.copy_differs_from_original", {"n": h.n, "handle": h.kind, "while": "another thread operated on another handle"})
+            c = Handle(r, h.n, "copy-of-" + h.kind)
+            c.clone_model(h)
+            new.append(c)
+        return kind, (lambda: h.g.copy()), after
+    if kind == "neg":
+        k0, l0, u0 = (np.array(a, copy=True) for a in games.arrays(h.g))
+
+        def after(r, new):
+            k1, l1, u1 = games.arrays(r)
+            if not (np.array_equal(k0, k1) and np.array_equal(l1, -u0) and np.array_equal(u1, -l0)):
+                sim.fail("C17.negation_does_not_swap_and_negate_bounds", {"n": h.n, "handle": h.kind, "while": "another thread operated on another handle"})
+            if table(h.g) != before:
+                sim.fail("C17.negation_modified_its_operand", {"n": h.n, "handle": h.kind})
+            c = Handle(r, h.n, "neg-of-" + h.kind)
+            c.known = {i: -v for i, v in h.known.items()}
+            for i in range(N):
+                if i not in h.known:
+                    c.lo[i] = -h.up[i] if h.up.get(i, WILD) is not WILD else WILD
+                    c.up[i] = -h.lo[i] if h.lo.get(i, WILD) is not WILD else WILD
+            new.append(c)
+        return kind, (lambda: -h.g), after
+    # read_all: every whole-table getter, copied inside the thread
+    want_known = [i in h.known for i in range(N)]
+
+    def read():
+        return (np.array(h.g.are_values_known(), copy=True), np.array(h.g.get_known_values(), dtype=np.float64, copy=True),
+                np.array(h.g.get_lower_bounds(), dtype=np.float64, copy=True), np.array(h.g.get_upper_bounds(), dtype=np.float64, copy=True))
+
+    def after(r, _new):
+        kn, kv, lo, up = r
+        ok = kn.tolist() == want_known and table(h.g) == before
+        for i in range(N):
+            if i in h.known:
+                ok = ok and kv[i] == h.known[i] and lo[i] == h.known[i] and up[i] == h.known[i]
+            else:
+                ok = ok and bool(np.isnan(kv[i]))
+        if not ok:
+            sim.fail("C17.known_coalition_value_or_bounds_wrong",
+                     {"n": h.n, "handle": h.kind, "via": "whole-table getters while another thread operated on another handle"})
+    return kind, read, after
+
+
+def threaded_step(sim: Sim, handles: list, n: int) -> None:
+    """Two caller threads, each performing one bulk operation on its own handle, pre-empted between package lines."""
+    N = 2 ** n
+    ia = sim.choose(len(handles), "thr-a")
+    ib = (ia + 1 + sim.choose(len(handles) - 1, "thr-b")) % len(handles)
+    ha, hb = handles[ia], handles[ib]
+    bystanders = [(o, table(o.g)) for j, o in enumerate(handles) if j not in (ia, ib)]
+    ka, ta, aa = plan_threaded(sim, ha, N)
+    kb, tb, ab = plan_threaded(sim, hb, N)
+    sim.op("threads", ia, ka, ib, kb)
+    with sim.guard("C17.operation_raised"):
+        ra, rb = simthreads.interleave(sim, [ta, tb])
+    new: list = []
+    aa(ra, new)
+    ab(rb, new)
+    sim.probe("bulk_ops_on_two_handles_overlapped_in_threads")
+    for o, snap in bystanders:
+        if table(o.g) != snap:
+            sim.fail("C17.operation_on_one_handle_changed_another", {"n": n, "operated": [ha.kind, hb.kind], "changed": o.kind, "op": "threads"})
+    for c in new:
+        if len(handles) < 6:
+            handles.append(c)
+    sim.state(n, ha.mask(), "threads:" + ka)
+    sim.state(n, hb.mask(), "threads:" + kb)
+    with sim.guard("C17.getter_raised"):
+        for x in handles:
+            check_handle(sim, x)
+
+
 def run(sim: Sim) -> None:
     from incomplete_cooperative.game import IncompleteCooperativeGame
     n = 1 + sim.choose(5, "n")
@@ -182,6 +316,9 @@ def run(sim: Sim) -> None:
     steps = 10 + sim.choose(41, "steps")
     had_bounds = False
     for _ in range(steps):
+        if len(handles) >= 2 and sim.flip(1, 10, "threads"):
+            threaded_step(sim, handles, n)
+            continue
         hi = sim.choose(len(handles), "handle")
         h = handles[hi]
         if h.kind.startswith("copy"):
